@@ -7,7 +7,7 @@ thread of timer.c under virtual time (clock_gettime / pthread_cond_* defined by 
 real replay_purge / _gids_map_update / _random_stir_entropy as callbacks in a second build."""
 import json, os, re, time
 from ..vlib import leanlib, cbuild, judge
-from ..gen import g_timer
+from ..gen import g_timer, g_timerrel
 
 LEVEL = "proof"
 NS = 1000000000
@@ -600,6 +600,9 @@ def run(ctx):
     g_timer.generate(ctx)
     if ctx.replay_in:
         return replay(ctx)
+    # timer_set_relative translated: a relative timer (also a zero-offset one) is keyed by what the clock query produced
+    if g_timerrel.generate(ctx):
+        leanlib.check_props(ctx, "C18Rel")
     leanlib.check_props(ctx, "C18")
     drv = leanlib.driver(ctx)
     h, hs = build_harnesses(ctx)
